@@ -527,3 +527,16 @@ func concreteStr(v Value, what string) string {
 }
 
 var _ = strings.TrimSpace
+
+func init() {
+	reg("crypto/rand.Read", func(in *Interp, g *Goroutine, c *callCtx) (Value, int) {
+		s := c.args[0].(*SliceV)
+		if in.choose(2, "rand.Read") == 1 {
+			return done(tuple(i64(0), in.newErrorString(strConst("entropy source failed"))))
+		}
+		for i := 0; i < s.Len; i++ {
+			in.storeLeaf(s.Cells[i], in.freshVar("rnd", 8))
+		}
+		return done(tuple(i64(s.Len), &IfaceV{}))
+	})
+}
